@@ -430,6 +430,61 @@ static void sized_sequences(vh_rng* r, size_t n) {
 }
 
 
+
+/* a container obtained from an EMPTY source (copy of an empty container, assign of an empty container over one of
+   another element type) still takes over the source's element / key / value types: what is put into it afterwards
+   comes back with those types */
+static void empty_sources(vh_rng* r) {
+  int ti = (int)vh_below(r, NSZT), oi = (int)vh_below(r, NSZT);
+  var T = SZT[ti]; size_t es = SZT_SIZE[ti];
+  char ebuf[sizeof(struct Header) + 64], vbuf[sizeof(struct Header) + 64], how[120];
+  for (int kind = 0; kind < 2; kind++) {
+    var SK = kind ? List : Array;
+    var src = new_with(SK, tuple(T));
+    if (vh_chance(r, 50)) { push(src, stack_obj(T, es, 1, 5, ebuf)); pop(src); }       /* empty again after having held something */
+    var cp = copy(src);
+    var as = new_with(SK, tuple(SZT[oi]));
+    for (size_t i = 0; i < 3; i++) { push(as, stack_obj(SZT[oi], SZT_SIZE[oi], i, 1, ebuf)); }
+    assign(as, src);
+    var both[2] = { cp, as };
+    for (int w = 0; w < 2; w++) {
+      snprintf(how, sizeof how, "%s<%zu-byte> %s an empty source", kind ? "List" : "Array", es, w ? "assigned from" : "copied from");
+      vh_evals(2);
+      if (len(both[w]) != 0) { vh_violation(K("empty-source:not-empty", how), "len %zu", len(both[w])); continue; }
+      if (iter_type(both[w]) != T) { vh_violation(K("wrong-element-type-reported", how), "iter_type is %s, the source's element type is %s", iter_type(both[w]) ? c_str(iter_type(both[w])) : "NULL", c_str(T)); continue; }
+      var exc = NULL;
+      for (size_t i = 0; i < 4 && !exc; i++) { VH_CATCH(push(both[w], stack_obj(T, es, i, 5, ebuf)), exc); }
+      if (exc) { vh_violation(K("empty-source:push-raised", how), "push of an element of the source's type raised %s", vh_exc_name(exc)); continue; }
+      check_seq(both[w], T, es, 4, 5, how);
+    }
+    del(src); del(cp); del(as);
+  }
+  for (int tree = 0; tree < 2; tree++) {
+    var MK = tree ? Tree : Table;
+    var KT = SZT[ti], VT = SZT[oi]; size_t ks = SZT_SIZE[ti], vs = SZT_SIZE[oi];
+    var src = new_with(MK, tuple(KT, VT));
+    var cp = copy(src);
+    var as = new_with(MK, tuple(String, Int));
+    set(as, $S("k"), $I(1));
+    assign(as, src);
+    var both[2] = { cp, as };
+    unsigned char present[256]; memset(present, 0, sizeof present);
+    for (int w = 0; w < 2; w++) {
+      snprintf(how, sizeof how, "%s<%zu-byte,%zu-byte> %s an empty source", tree ? "Tree" : "Table", ks, vs, w ? "assigned from" : "copied from");
+      vh_evals(2);
+      if (len(both[w]) != 0) { vh_violation(K("empty-source:not-empty", how), "len %zu", len(both[w])); continue; }
+      if (key_type(both[w]) != KT || val_type(both[w]) != VT) { vh_violation(K("wrong-element-type-reported", how), "key_type / val_type differ from the source's"); continue; }
+      var exc = NULL;
+      for (size_t i = 0; i < 5 && !exc; i++) { VH_CATCH(set(both[w], stack_obj(KT, ks, i, 11, ebuf), stack_obj(VT, vs, i, 99, vbuf)), exc); }
+      if (exc) { vh_violation(K("empty-source:set-raised", how), "set with objects of the source's types raised %s", vh_exc_name(exc)); continue; }
+      memset(present, 0, sizeof present); for (int i = 0; i < 5; i++) { present[i] = 1; }
+      check_map(both[w], KT, ks, VT, vs, present, 5, how);
+    }
+    del(src); del(cp); del(as);
+  }
+  vh_count("containers_obtained_from_empty_sources");
+}
+
 /* every object an iterator hands out, forwards and backwards, is one of the container's live elements (the ones get
    returns), has the element type, and there are exactly len of them -- also after elements were removed at the
    head, the tail and in the middle (a released element must never be handed out again) */
@@ -523,7 +578,7 @@ static void fixed(void) {
     vh.oplen = 0; vh.oplog[0] = 0; vh.nops = 0;
     vh_op("enumeration at container size %zu", SZ[i]);
     enumerate_all(&r, SZ[i]);
-    for (int k = 0; k < 12; k++) { sized_maps(&r, SZ[i] + (size_t)k); sized_sequences(&r, SZ[i] + (size_t)k); iterator_results_after_edits(&r, SZ[i] + (size_t)k); }
+    for (int k = 0; k < 12; k++) { sized_maps(&r, SZ[i] + (size_t)k); sized_sequences(&r, SZ[i] + (size_t)k); iterator_results_after_edits(&r, SZ[i] + (size_t)k); empty_sources(&r); }
   }
   /* OPEN FINDING reproducer: dealloc of an object obtained from alloc leaves its registry entry behind
      (in a child process: the stale entry would make a later sweep finalise freed memory) */
@@ -564,6 +619,7 @@ static void case_random(vh_rng* r, long index) {
   sized_maps(r, 1 + vh_below(r, 60)); sized_maps(r, 1 + vh_below(r, 200));
   sized_sequences(r, 1 + vh_below(r, 60));
   iterator_results_after_edits(r, n);
+  empty_sources(r); empty_sources(r);
   if (index % 4 == 0) { run_fresh_thread(); }
   vh_nontrivial();
 }
